@@ -329,11 +329,27 @@ func checkC19(tier string) *Report {
 		lwg.Add(1)
 		go func(li int) {
 			defer lwg.Done()
-			tr, err := loopRun(nil, full)
+			// the first replay also carries the history's own oracles; of those, C19 keeps the ones about state OUTSIDE the stores:
+			// the verdict on a packet must be a function of the committed state and the packet — not of messages that ran in a
+			// transaction that was rolled back, i.e. of what this process happened to execute (seed C19h)
+			var sub *Report
+			if li == 0 {
+				sub = NewReport("C19", tier, "model_checking")
+			}
+			tr, err := loopRun(sub, full)
 			if err != nil {
 				loopErr = err
 			}
 			loopTrs[li] = tr
+			if sub != nil {
+				for _, v := range sub.Violations {
+					if v.Kind == "rolled-back-message-in-force" || v.Kind == "same-block-admin-message-not-in-force" {
+						v.Kind = "verdict-depends-on-process-history"
+						rep.Violate(v)
+					}
+				}
+				rep.Count("evaluations", sub.Outcomes["rolled-back-message-not-in-force"]+sub.Outcomes["same-block-message-in-force"])
+			}
 		}(li)
 	}
 	flaky, lightRuns, err := c19Amplify(hs, full)
